@@ -301,7 +301,7 @@ def assignment_world(idx):
     reads.append({"name": "edge", "chr": "chr2", "blocks": [[1, 300], [701, 900]], "reverse": False})
     w = dict(w, reads=reads)
     syn.plant_for_transcripts(w)
-    return w, "assign-%s" % name
+    return w, "assign-%s%s" % (name, "+arich" if meta.get("arich") else "")
 
 
 NOISE_FREE = ["K1", "K2", "K4", "P1", "Q1", "N1", "N2", "M1", "G1", "S1", "V1", "W1", "V2", "I1", "I2", "Y0", "H1", "H2", "MA", "S2"]
@@ -1182,6 +1182,9 @@ def run(ctx):
         nreads += n
         for k, msg in errs:
             tr = "reflect" if key[2] == "reflect" else "shift"
+            if str(key[1]).endswith("+arich"):
+                # C01's annotation whose 3' terminal exon consists of genomic A's: aligned A-rich (T-rich) bases are taken for a tail
+                k += ":a-rich-terminal-exon"
             ctx.violation("%s:%s:%s" % (tr, key[0], k), "scenario %s, transformation %s: %s" % (key[1], key[2], msg),
                           {"kind": key[0], "scenario": key[1], "transform": key[2]})
     ctx.note("%d (scenario, transformation) pairs, 2 pipeline runs each; %d read records compared" % (len(jobs), nreads))
